@@ -269,8 +269,8 @@ def gen_policy(rng, uid, inq, kind, stag='<', etag='>', effect=None, hit=None):
     hit = rng.random() < 0.6 if hit is None else hit
     p = {'uid': uid, 'desc': pick(rng, [None, 'desc %s' % (uid,), '', "it's"]), 'stag': stag, 'etag': etag}
     if effect is None:
-        effect = pick(rng, ['allow', 'allow', 'allow', 'deny', 'deny', 'ALLOW', 'Allow', ' allow', 'allow ', None, '',
-                            0, 1, True])
+        effect = pick(rng, ['allow'] * 12 + ['deny'] * 4 + ['ALLOW', 'Allow', ' allow', 'allow ', None, '', 0, 1, True,
+                                                             'permit'])
     p['effect'] = effect
     for fld, key in (('subjects', 'subject'), ('resources', 'resource'), ('actions', 'action')):
         what = inq[key]
